@@ -91,7 +91,10 @@ func ownAddr(second byte) net.IP {
 	return net.IPv4(127, second, byte(pid>>8), byte(pid)).To4()
 }
 
-func newDrv() *drv {
+func newDrv() *drv { return newDrvDaemon("") }
+
+// newDrvDaemon: the listeners fetch their DRKeys from the daemon at daemonAddr ("" = none: mock keys only).
+func newDrvDaemon(daemonAddr string) *drv {
 	d := &drv{}
 	timebase.RegisterClock(sysClock{})
 	d.provider = ntske.NewProvider()
@@ -104,7 +107,7 @@ func newDrv() *drv {
 	defReg := prometheus.DefaultRegisterer
 	d.srvReg = prometheus.NewRegistry()
 	prometheus.DefaultRegisterer = d.srvReg
-	server.StartSCIONServer(ctx, log, "" /* daemon */, &net.UDPAddr{IP: d.srvIP, Port: scionPort}, srvDSCP, d.provider)
+	server.StartSCIONServer(ctx, log, daemonAddr, &net.UDPAddr{IP: d.srvIP, Port: scionPort}, srvDSCP, d.provider)
 	d.dispReg = prometheus.NewRegistry()
 	prometheus.DefaultRegisterer = d.dispReg
 	server.StartSCIONDispatcher(ctx, log, &net.UDPAddr{IP: d.dispIP, Port: scionPort})
@@ -288,7 +291,14 @@ var zeroKey = make([]byte, 16)
 // the first authenticator option of a datagram the way both ends do it
 // (payload type UDP, payload = the last udp.Length bytes of the datagram).
 // Empty when there is nothing to compute it for.
-func macOf(p *parsed, raw []byte) (mac []byte) {
+func macOf(p *parsed, raw []byte) []byte { return macOfKey(p, raw, nil) }
+
+// keyFn is the host-host key both ends use for a datagram: the mock key, or in
+// the keyed child the key the fake DRKey daemon hands out for the addressed
+// server host and the client host (keyed.go).
+var keyFn = func(p *parsed) []byte { return zeroKey }
+
+func macOfKey(p *parsed, raw []byte, key []byte) (mac []byte) {
 	defer func() {
 		if recover() != nil {
 			mac = nil
@@ -300,11 +310,17 @@ func macOf(p *parsed, raw []byte) (mac []byte) {
 	if len(raw) < int(p.udp.Length) {
 		return nil
 	}
+	if key == nil {
+		key = keyFn(p)
+	}
+	if key == nil {
+		return nil
+	}
 	buf := append([]byte(nil), raw...)
 	out := make([]byte, 16)
 	aux := make([]byte, spao.MACBufferSize)
 	_, err := spao.ComputeAuthCMAC(spao.MACInput{
-		Key:        zeroKey,
+		Key:        key,
 		Header:     slayers.PacketAuthOption{EndToEndOption: p.authOpt},
 		ScionLayer: &p.scn,
 		PldType:    slayers.L4UDP,
@@ -391,6 +407,7 @@ type pktSpec struct {
 	e2e              bool
 	opts             []optSpec
 	auth             int // index into opts of the authenticator whose MAC is to be filled in, or -1
+	key              []byte // key for that MAC; nil: the key both ends use for this datagram
 	scmp             bool
 	scmpType         uint8
 	scmpCode         uint8
@@ -474,7 +491,7 @@ func (h *pktSpec) build() (raw []byte, err error) {
 		return raw, err
 	}
 	p := parse(raw)
-	mac := macOf(p, raw)
+	mac := macOfKey(p, raw, h.key)
 	if mac == nil || len(h.opts[h.auth].data) != 28 {
 		return raw, nil
 	}
@@ -490,7 +507,7 @@ func (h *pktSpec) build() (raw []byte, err error) {
 		if err2 != nil {
 			return raw, nil
 		}
-		mac = macOf(parse(r2), r2)
+		mac = macOfKey(parse(r2), r2, h.key)
 		if mac == nil {
 			return raw, nil
 		}
